@@ -2,6 +2,7 @@ package props
 
 import (
 	"bytes"
+	"crypto/elliptic"
 	"crypto/rsa"
 	"crypto/sha256"
 	"crypto/x509"
@@ -378,6 +379,37 @@ func (c c18) foreignSuites(w *world.World, res *core.Result) {
 	pub, err := util.UnmarshalTokenKey(is.PubDER)
 	if err != nil {
 		return
+	}
+	// name keys of other registered KEMs (public keys of other lengths)
+	for _, kk := range []struct {
+		id uint16
+		pk []byte
+	}{
+		{0x0010, elliptic.Marshal(elliptic.P256(), elliptic.P256().Params().Gx, elliptic.P256().Params().Gy)},
+		{0x0012, elliptic.Marshal(elliptic.P521(), elliptic.P521().Params().Gx, elliptic.P521().Params().Gy)},
+		{0x0021, append([]byte{5}, make([]byte, 55)...)},
+	} {
+		published := append([]byte{0x07, byte(kk.id >> 8), byte(kk.id)}, kk.pk...)
+		published = append(published, 0x00, 0x01, 0x00, 0x01)
+		nk, err := type3.UnmarshalEncapKey(published)
+		res.Evals++
+		if err != nil {
+			res.Probe("EncapKey with another KEM refused by the decoder")
+			continue
+		}
+		w.Ent.Begin("client", fmt.Sprintf("c18/kem/%d", kk.id))
+		var st type3.RateLimitedTokenRequestState
+		if pv := safely(func() {
+			st, err = w.C3[0].C.CreateTokenRequest([]byte("challenge"), make([]byte, 32), append([]byte{1}, make([]byte, 47)...), is.KeyID, pub, "origin.example", nk)
+		}); pv != nil || err != nil {
+			res.Probe("request creation for a name key of another KEM failed")
+			continue
+		}
+		want := sha256.Sum256(published)
+		res.Nontrivial(fmt.Sprintf("namekey/kem%#x", kk.id))
+		if !bytes.Equal(st.Request().NameKeyID, want[:]) {
+			res.Violate("C18/name-key-id", fmt.Sprintf("name key of KEM %#04x (%d-byte public key): the request's name key id is not SHA-256 of the published EncapKey bytes", kk.id, len(kk.pk)), -1)
+		}
 	}
 	for vi, ids := range [][2]byte{{2, 1}, {3, 1}, {1, 2}, {1, 3}, {3, 3}, {1, 1}, {1, 1}} {
 		published := append([]byte(nil), is.NameKeyBytes...)
